@@ -31,7 +31,7 @@ def required(tier):
     return ["bound==note_time_at_start", "bound==note_time_at_end", "interval_with_0_notes", "omitted_end_longest_sustain_not_last",
             "error:absent_instrument", "error:absent_difficulty", "error:noteless_track", "error:zero_length", "error:negative_length",
             "form:none", "form:tick", "form:tick2", "form:none_tick", "form:ts", "form:ts2", "end_tick_0", "sub_second_interval",
-            "tick_and_time_forms_agree", "contract_evaluated"]
+            "tick_and_time_forms_agree", "contract_evaluated", "note_lines_not_in_tick_order"]
 
 
 def shards(tier, seed):
@@ -46,12 +46,21 @@ def expected_value(chart, instrument, difficulty, start, end):
     if tr is None or not tr.note_events:
         return None
     be = chart.sync_track.bpm_events
+    last_end = max(us(n.end_timestamp) for n in tr.note_events)  # "the track's last note end" = the latest end among its notes
+    at = {}
+    for n in tr.note_events:  # the tempo-map time of a tick that carries a note is that note's time
+        at.setdefault(n.tick, us(n.timestamp))
+        at.setdefault(n.end_tick, us(n.end_timestamp))
+
+    def time_of(tick):
+        return at[tick] if tick in at else us(be.timestamp_at_tick_no_optimize_return(tick))
+
     if start is None or isinstance(start, int):
-        s = 0 if start is None else us(be.timestamp_at_tick_no_optimize_return(start))
-        e = us(tr.last_note_end_timestamp) if end is None else us(be.timestamp_at_tick_no_optimize_return(end))
+        s = 0 if start is None else time_of(start)
+        e = last_end if end is None else time_of(end)
     else:
         s = us(start)
-        e = us(tr.last_note_end_timestamp) if end is None else us(end)
+        e = last_end if end is None else us(end)
     if e - s <= 0:
         return None
     cnt = sum(1 for n in tr.note_events if s <= us(n.timestamp) <= e)
@@ -210,6 +219,23 @@ def run_shard(shard, rec, tier, seed):
         case = gen.gen_chart(rng, "hostile" if i % 3 == 0 else "realistic", n_tracks=rng.choice([1, 2, 3]),
                              n_groups=rng.choice([0, 1, 2, 6, 25]) if i % 14 else 900, n_globals=0,
                              n_tempos=rng.choice([1, 2, 5, 12]) if i % 14 else 60)
+        if i % 5 == 2 and len(case["truth"]["tempos"]) == 1:
+            # one tempo segment: note lines may come in any order without upsetting any lookup; the rate is about times, not file order
+            secs = []
+            for name, body in case["sections"]:
+                if name not in ("Song", "SyncTrack", "Events"):
+                    nl = [ln for ln in body if " = N " in ln]
+                    groups = {}
+                    for ln in nl:
+                        groups.setdefault(ln.split("=")[0].strip().lstrip("0") or "0", []).append(ln)
+                    keys = list(groups)
+                    rng.shuffle(keys)
+                    body = [ln for k in keys for ln in groups[k]] + [ln for ln in body if " = N " not in ln]
+                secs.append((name, body))
+            first_forced = any(b and " = N 5 " in "".join(b[:3]) for n, b in secs if n not in ("Song", "SyncTrack", "Events"))
+            if not first_forced:
+                case = dict(case, text=gen.render_sections(secs), sections=[[n, b] for n, b in secs])
+                rec.cls("note_lines_not_in_tick_order")
         drive(rec, rng, case)
         if i < 1:
             rec.sample({"tracks": sorted(case["truth"]["tracks"]), "text_head": case["text"][:200]})
